@@ -69,12 +69,14 @@ def parse_block(block):
     m = re.search(r"Verification Time: ([0-9.]+)s", text)
     if m:
         r["solver_s"] = float(m.group(1))
-    for m in re.finditer(r'Failed Checks: (.*)\n File: "([^"]*)", line (\d+), in (\S+)', text):
+    for m in re.finditer(r'Failed Checks: (.*)\n File: "([^"]*)", line (\d+), in ([^\n]+)', text):
         r["failed_checks"].append({"description": m.group(1).strip().strip('"'), "file": m.group(2), "line": int(m.group(3)), "function": m.group(4)})
     # failed checks without location
     for m in re.finditer(r"Failed Checks: (.*)\n(?! File:)", text):
         r["failed_checks"].append({"description": m.group(1).strip().strip('"'), "file": "", "line": 0, "function": ""})
-    if "CBMC timed out" in text or "timed out" in text.lower():
+    if "CBMC timed out" in text or "CBMC failed" in text or "out of memory" in text.lower():
+        # resource limit, not a verdict
+        r["raw_status"] = None
         r["timeout"] = True
     return r
 
